@@ -368,6 +368,16 @@ func (p *path) addRule(
 	if !ok && cursor.methodAll != nil {
 		y, ok = cursor.methodAll, true // bound for every verb (kind "*")
 	}
+	if !ok && verb == "*" {
+		// Kind "*" claims every verb: it collides with any verb another
+		// method holds here, just as that verb would collide with it had
+		// the two rules come in the other order.
+		for _, m := range cursor.methods {
+			if m.desc.FullName() != desc.FullName() {
+				return fmt.Errorf("duplicate rule %v", rule)
+			}
+		}
+	}
 	if ok {
 		if y.desc.FullName() != desc.FullName() {
 			return fmt.Errorf("duplicate rule %v", rule)
